@@ -652,7 +652,9 @@ func runParent(prop, tier string) int {
 		}
 		if !confirmed {
 			fmt.Printf("NONDETERMINISTIC property=%s signature=%q replay=%s did not reproduce in a fresh process\n%s\n", prop, s, v.replay, tail(outs, 1500))
-			exit = exitInfra
+			if exit == exitOK {
+				exit = exitInfra
+			}
 			continue
 		}
 		listed := false
@@ -668,7 +670,9 @@ func runParent(prop, tier string) int {
 			unlisted++
 			fmt.Printf("violation signature: %s\n  %s\n", s, firstLines(v.detail, 12))
 			fmt.Printf("VIOLATION property=%s replay=%s\n", prop, v.replay)
-			if exit == exitOK {
+			// a violation that reproduced in a fresh process decides the outcome, also when some other event of the
+			// batch (typically the crash or hang that follows from the same defect) did not reproduce
+			if exit == exitOK || exit == exitInfra {
 				exit = exitViol
 			}
 		}
